@@ -21,7 +21,7 @@
 (***************************************************************************)
 EXTENDS Integers, Sequences, FiniteSets, TLC, Json, CSV
 
-CONSTANTS NTask, NInst, UseLock, GSusp, MaxDel, OpsPer, AllowFail, AllowCancel, EdgeFile
+CONSTANTS NTask, NInst, UseLock, GSusp, MaxDel, OpsPer, AllowFail, AllowCancel, ExitSusp, EdgeFile
 Task == 1..NTask
 Inst == 1..NInst
 MaxPh == NTask * OpsPer + MaxDel + 2
@@ -37,20 +37,23 @@ VARIABLES slot,     \* slot[i]: Absent | PhV(p) | ValV(run)
           lockOf,   \* lockOf[p]: task holding p's lock, 0 if free
           runs,     \* getter runs started so far (run ids are the values)
           dels,
-          pc,       \* "idle" | "holding" | "lockwait" | "ingetter"
+          pc,       \* "idle" | "holding" | "lockwait" | "ingetter" | "exiting" (lock.__aexit__ suspended,
+                    \* ExitSusp = 1: the value is stored and the lock free already)
           obj,      \* obj[t]: the object task t holds / awaits (Absent if none)
           tph,      \* placeholder whose lock / getter the task is in
           rem, myrun,
+          cap,      \* cap[t]: what the re-check under the lock found, kept across a suspending release
           got,      \* last value a task's await returned (0 none)
           left,     \* accesses the task may still make
           last
-vars == <<slot, nph, phInst, lockOf, runs, dels, pc, obj, tph, rem, myrun, got, left, last>>
-View == <<slot, nph, phInst, lockOf, runs, dels, pc, obj, tph, rem, myrun, got, left>>
+vars == <<slot, nph, phInst, lockOf, runs, dels, pc, obj, tph, rem, myrun, cap, got, left, last>>
+View == <<slot, nph, phInst, lockOf, runs, dels, pc, obj, tph, rem, myrun, cap, got, left>>
 
 Init == /\ slot = [i \in Inst |-> Absent] /\ nph = 0 /\ phInst = [p \in Ph |-> 0]
         /\ lockOf = [p \in Ph |-> 0] /\ runs = 0 /\ dels = 0
         /\ pc = [t \in Task |-> "idle"] /\ obj = [t \in Task |-> Absent]
         /\ tph = [t \in Task |-> 0] /\ rem = [t \in Task |-> 0] /\ myrun = [t \in Task |-> 0]
+        /\ cap = [t \in Task |-> Absent]
         /\ got = [t \in Task |-> 0] /\ left = [t \in Task |-> OpsPer]
         /\ last = <<"init", 0, 0>>
 
@@ -69,7 +72,7 @@ Access(t, i) ==
      /\ slot' = r.slot /\ nph' = r.nph /\ phInst' = r.phInst
      /\ obj' = [obj EXCEPT ![t] = r.o]
      /\ pc' = [pc EXCEPT ![t] = "holding"]
-  /\ UNCHANGED <<lockOf, runs, dels, tph, rem, myrun, got>>
+  /\ UNCHANGED <<lockOf, runs, dels, tph, rem, myrun, got, cap>>
 
 \* the await is over: the task has its value
 Done(t, v) == /\ pc' = [pc EXCEPT ![t] = "idle"] /\ got' = [got EXCEPT ![t] = v]
@@ -83,8 +86,10 @@ StartGetter(t, p, lk, sl) ==
   /\ IF GSusp = 0
      THEN /\ slot' = [sl EXCEPT ![i] = ValV(r)]           \* functools.py:125
           /\ lockOf' = [lk EXCEPT ![p] = 0]
-          /\ Done(t, r)
-          /\ UNCHANGED <<rem, myrun>>
+          /\ IF UseLock /\ ExitSusp = 1
+             THEN /\ pc' = [pc EXCEPT ![t] = "exiting"] /\ myrun' = [myrun EXCEPT ![t] = r]
+                  /\ tph' = [tph EXCEPT ![t] = p] /\ UNCHANGED <<rem, got, obj>>
+             ELSE Done(t, r) /\ UNCHANGED <<rem, myrun>>
      ELSE /\ slot' = sl /\ lockOf' = lk
           /\ pc' = [pc EXCEPT ![t] = "ingetter"]
           /\ tph' = [tph EXCEPT ![t] = p]
@@ -114,7 +119,7 @@ Await(t) ==
   /\ IF obj[t][1] = "val"
      THEN /\ Done(t, obj[t][2]) /\ UNCHANGED <<slot, nph, phInst, lockOf, runs, rem, myrun>>
      ELSE LET p == obj[t][2]  r == Lookup(slot, nph, phInst, phInst[p]) IN Follow(t, r, lockOf)
-  /\ UNCHANGED <<dels, left>>
+  /\ UNCHANGED <<dels, left, cap>>
 
 \* the lock of tph[t] became free: acquire, re-check the slot [111-117]; if it is no
 \* longer this placeholder, release and follow what is there now [119-121]
@@ -125,7 +130,13 @@ Grant(t) ==
      IF r.o = PhV(p)
      THEN /\ nph' = r.nph /\ phInst' = r.phInst
           /\ StartGetter(t, p, [lockOf EXCEPT ![p] = t], r.slot)
-     ELSE Follow(t, r, lockOf)
+          /\ UNCHANGED cap
+     ELSE IF ExitSusp = 1
+     THEN \* leave `async with` (release, suspend); what was found is awaited afterwards
+          /\ nph' = r.nph /\ phInst' = r.phInst /\ slot' = r.slot
+          /\ pc' = [pc EXCEPT ![t] = "exitfollow"] /\ cap' = [cap EXCEPT ![t] = r.o]
+          /\ UNCHANGED <<lockOf, runs, rem, myrun, got, obj, tph>>
+     ELSE Follow(t, r, lockOf) /\ UNCHANGED cap
   /\ UNCHANGED <<dels, left>>
 
 Tick(t) ==
@@ -133,32 +144,59 @@ Tick(t) ==
   /\ last' = <<"tick", t, 0>>
   /\ IF rem[t] > 1
      THEN /\ rem' = [rem EXCEPT ![t] = @ - 1]
-          /\ UNCHANGED <<slot, nph, phInst, lockOf, runs, dels, pc, obj, tph, myrun, got, left>>
+          /\ UNCHANGED <<slot, nph, phInst, lockOf, runs, dels, pc, obj, tph, myrun, got, left, cap>>
      ELSE /\ slot' = [slot EXCEPT ![phInst[tph[t]]] = ValV(myrun[t])]     \* functools.py:125
           /\ lockOf' = IF UseLock THEN [lockOf EXCEPT ![tph[t]] = 0] ELSE lockOf
-          /\ Done(t, myrun[t])
-          /\ rem' = [rem EXCEPT ![t] = 0] /\ myrun' = [myrun EXCEPT ![t] = 0]
-          /\ UNCHANGED <<nph, phInst, runs, dels, left>>
+          /\ IF UseLock /\ ExitSusp = 1
+             THEN /\ pc' = [pc EXCEPT ![t] = "exiting"]          \* suspended in lock.__aexit__
+                  /\ UNCHANGED <<got, obj, tph, rem, myrun>>
+             ELSE /\ Done(t, myrun[t])
+                  /\ rem' = [rem EXCEPT ![t] = 0] /\ myrun' = [myrun EXCEPT ![t] = 0]
+          /\ UNCHANGED <<nph, phInst, runs, dels, left, cap>>
+
+\* lock.__aexit__ resumes: the await returns the value the getter produced
+ExitStep(t) ==
+  /\ pc[t] \in {"exiting", "exitfollow", "exitabort"}
+  /\ last' = <<"exit", t, 0>>
+  /\ CASE pc[t] = "exiting" ->
+            /\ Done(t, myrun[t])
+            /\ rem' = [rem EXCEPT ![t] = 0] /\ myrun' = [myrun EXCEPT ![t] = 0]
+            /\ UNCHANGED <<slot, nph, phInst, lockOf, runs, cap>>
+       [] pc[t] = "exitfollow" ->       \* `return await stored` with what the re-check had found
+            /\ cap' = [cap EXCEPT ![t] = Absent]
+            /\ IF cap[t][1] = "val"
+               THEN /\ Done(t, cap[t][2]) /\ UNCHANGED <<slot, nph, phInst, lockOf, runs, rem, myrun>>
+               ELSE LET q == cap[t][2]  r == Lookup(slot, nph, phInst, phInst[q]) IN Follow(t, r, lockOf)
+       [] pc[t] = "exitabort" ->        \* the exception of the getter / the cancellation comes out
+            /\ pc' = [pc EXCEPT ![t] = "idle"]
+            /\ obj' = [obj EXCEPT ![t] = Absent] /\ tph' = [tph EXCEPT ![t] = 0]
+            /\ rem' = [rem EXCEPT ![t] = 0] /\ myrun' = [myrun EXCEPT ![t] = 0]
+            /\ got' = [got EXCEPT ![t] = 0]
+            /\ UNCHANGED <<slot, nph, phInst, lockOf, runs, cap>>
+  /\ UNCHANGED <<dels, left>>
 
 \* the computation ends without a value: nothing is stored, the lock is released
 Abort(t, how) ==
   /\ last' = <<how, t, 0>>
-  /\ pc' = [pc EXCEPT ![t] = "idle"]
   /\ lockOf' = IF UseLock /\ pc[t] = "ingetter" THEN [lockOf EXCEPT ![tph[t]] = 0] ELSE lockOf
-  /\ obj' = [obj EXCEPT ![t] = Absent] /\ tph' = [tph EXCEPT ![t] = 0]
-  /\ rem' = [rem EXCEPT ![t] = 0] /\ myrun' = [myrun EXCEPT ![t] = 0]
-  /\ got' = [got EXCEPT ![t] = 0]
-  /\ UNCHANGED <<slot, nph, phInst, runs, dels, left>>
+  /\ IF UseLock /\ ExitSusp = 1 /\ pc[t] = "ingetter"
+     THEN /\ pc' = [pc EXCEPT ![t] = "exitabort"]         \* the exception passes through lock.__aexit__, which suspends
+          /\ UNCHANGED <<obj, tph, rem, myrun, got>>
+     ELSE /\ pc' = [pc EXCEPT ![t] = "idle"]
+          /\ obj' = [obj EXCEPT ![t] = Absent] /\ tph' = [tph EXCEPT ![t] = 0]
+          /\ rem' = [rem EXCEPT ![t] = 0] /\ myrun' = [myrun EXCEPT ![t] = 0]
+          /\ got' = [got EXCEPT ![t] = 0]
+  /\ UNCHANGED <<slot, nph, phInst, runs, dels, left, cap>>
 
 Fail(t) == AllowFail /\ pc[t] = "ingetter" /\ rem[t] = 1 /\ Abort(t, "fail")
-Cancel(t) == AllowCancel /\ pc[t] \in {"ingetter", "lockwait"} /\ Abort(t, "cancel")
+Cancel(t) == AllowCancel /\ pc[t] \in {"ingetter", "lockwait", "exiting", "exitfollow", "exitabort"} /\ Abort(t, "cancel")
 
 Del(i) == /\ dels < MaxDel /\ slot[i] # Absent
           /\ last' = <<"del", 0, i>>
           /\ slot' = [slot EXCEPT ![i] = Absent] /\ dels' = dels + 1
-          /\ UNCHANGED <<nph, phInst, lockOf, runs, pc, obj, tph, rem, myrun, got, left>>
+          /\ UNCHANGED <<nph, phInst, lockOf, runs, pc, obj, tph, rem, myrun, got, left, cap>>
 
-Next == (\E t \in Task : (\E i \in Inst : Access(t, i)) \/ Await(t) \/ Grant(t) \/ Tick(t) \/ Fail(t) \/ Cancel(t))
+Next == (\E t \in Task : (\E i \in Inst : Access(t, i)) \/ Await(t) \/ Grant(t) \/ Tick(t) \/ ExitStep(t) \/ Fail(t) \/ Cancel(t))
         \/ \E i \in Inst : Del(i)
 Spec == Init /\ [][Next]_vars
 
@@ -180,7 +218,7 @@ LockFreeAtRest == (\A t \in Task : pc[t] # "ingetter") => \A p \in Ph : lockOf[p
 LockHolder == \A p \in Ph : lockOf[p] # 0 => (pc[lockOf[p]] = "ingetter" /\ tph[lockOf[p]] = p)
 
 EmitEdge == EdgeFile = "" \/
-  CSVWrite("%1$s", <<ToJson([f |-> [slot |-> slot, pc |-> pc, got |-> got, runs |-> runs, lk |-> lockOf, nph |-> nph, left |-> left, tph |-> tph, obj |-> obj, rem |-> rem, dels |-> dels, phInst |-> phInst, myrun |-> myrun],
+  CSVWrite("%1$s", <<ToJson([f |-> [slot |-> slot, pc |-> pc, got |-> got, runs |-> runs, lk |-> lockOf, nph |-> nph, left |-> left, tph |-> tph, obj |-> obj, rem |-> rem, dels |-> dels, phInst |-> phInst, myrun |-> myrun, cap |-> cap],
                              a |-> last',
-                             t |-> [slot |-> slot', pc |-> pc', got |-> got', runs |-> runs', lk |-> lockOf', nph |-> nph', left |-> left', tph |-> tph', obj |-> obj', rem |-> rem', dels |-> dels', phInst |-> phInst', myrun |-> myrun']])>>, EdgeFile)
+                             t |-> [slot |-> slot', pc |-> pc', got |-> got', runs |-> runs', lk |-> lockOf', nph |-> nph', left |-> left', tph |-> tph', obj |-> obj', rem |-> rem', dels |-> dels', phInst |-> phInst', myrun |-> myrun', cap |-> cap']])>>, EdgeFile)
 =============================================================================
